@@ -116,7 +116,13 @@ class Gen:
     def directive(self):
         if not self.coin(1, 6):
             return ""
-        name = self.d(st.sampled_from(["skip", "include"]))
+        if self.coin(1, 4):
+            # both directives on one node, in either order: the node stays only if neither excludes it
+            a, b = self.one_directive("skip"), self.one_directive("include")
+            return (a + b) if self.coin() else (b + a)
+        return self.one_directive(self.d(st.sampled_from(["skip", "include"])))
+
+    def one_directive(self, name):
         if self.use_vars and self.coin(1, 2):
             v = "b%d" % len(self.vars)
             self.vars[v] = self.d(st.booleans())
